@@ -345,3 +345,68 @@ Fixpoint frun (l : limiter) (s : fsys) (os : list fop) : fsys * list fobs :=
   | o :: os' => let '(s1, b) := fstep l s o in
                 let '(s2, bs) := frun l s1 os' in (s2, b :: bs)
   end.
+
+(* ---- total memory (percentage mode): iruntime.TotalMemory (linux) and the cgroups readers ------
+   GetMemoryFn = iruntime.TotalMemory.  Everything it reads from the system is an INPUT here:
+   the results of cgroups.IsCGroupV2, cgroups.MemoryQuotaV2 / NewCGroupsForCurrentProcess +
+   CGroups.MemoryQuota and readMemInfo (gopsutil mem.VirtualMemory().Total).
+   A quota result is Go's (int64, bool, error). *)
+Definition unlimitedMemorySize : Z := 9223372036854771712.   (* const in total_memory_linux.go *)
+
+Inductive quota_res := QErr | QRes (quota : Z) (defined : bool).
+
+(* CGroups.MemoryQuota (cgroup v1): does the "memory" subsystem exist; readInt("memory.limit_in_bytes")
+   (None = read or parse error) *)
+Definition memory_quota_v1 (subsys_exists : bool) (read : option Z) : quota_res :=
+  if negb subsys_exists then QRes (-1) false
+  else match read with
+       | None => QErr
+       | Some n => if n >? 0 then QRes n true else QRes (-1) false
+       end.
+
+(* memoryQuotaV2 (cgroup v2): what <mountpoint>/memory.max looks like *)
+Inductive v2_file :=
+| V2Missing            (* os.IsNotExist *)
+| V2OpenErr            (* any other open error *)
+| V2Empty              (* no first line: io.ErrUnexpectedEOF *)
+| V2Max                (* first line, trimmed, is "max" *)
+| V2Int (n : Z)        (* strconv.ParseInt succeeds — any int64, also 0 and negative values *)
+| V2Garbage.           (* ParseInt fails *)
+
+Definition memory_quota_v2 (f : v2_file) : quota_res :=
+  match f with
+  | V2Missing => QRes (-1) false
+  | V2OpenErr => QErr
+  | V2Empty => QErr
+  | V2Max => QRes (-1) false
+  | V2Int n => QRes n true
+  | V2Garbage => QErr
+  end.
+
+Record mem_env := mkEnv {
+  e_isv2    : option bool;        (* IsCGroupV2(): None = error *)
+  e_quota_v2 : quota_res;         (* MemoryQuotaV2() *)
+  e_quota_v1 : option quota_res;  (* None = NewCGroupsForCurrentProcess() failed *)
+  e_meminfo : option Z            (* readMemInfo(): None = error *)
+}.
+
+(* the quota TotalMemory looks at *)
+Definition selected_quota (e : mem_env) : option quota_res :=
+  match e_isv2 e with
+  | None => None
+  | Some true => Some (e_quota_v2 e)
+  | Some false => e_quota_v1 e
+  end.
+
+(* TotalMemory(): None = error.  uint64(memoryQuota) is a wrapping conversion of an int64. *)
+Definition total_memory (e : mem_env) : option Z :=
+  match selected_quota e with
+  | None => None
+  | Some QErr => None
+  | Some (QRes quota defined) =>
+      if (quota =? unlimitedMemorySize) || negb defined then e_meminfo e
+      else Some (quota mod U64)
+  end.
+
+(* NewDefaultConfig(): everything zero except MinGCIntervalWhenSoftLimited = 10 s *)
+Definition default_config : config := mkConfig 0 10000000000 0 0 0 0 0.
